@@ -3970,3 +3970,40 @@ impl Entry<EntrySealed, EntryCommitted> {
         }
     }
 }
+
+// Verification hook (C15). Add-only and behaviour neutral; only compiled with `verif-hooks`.
+#[cfg(feature = "verif-hooks")]
+#[allow(clippy::items_after_test_module)]
+impl Entry<EntryInit, EntryNew> {
+    /// Run the replication-side schema check (`validate_repl`) on this attribute map as if
+    /// it were the merged state of an incremental replication update for `uuid`.
+    pub fn verif_c15_validate_repl(
+        self,
+        uuid: Uuid,
+        cid: Cid,
+        schema: &dyn SchemaTransaction,
+    ) -> Entry<EntryValid, EntryCommitted> {
+        let ecstate = EntryChangeState::new(&cid, &self.attrs, schema);
+        let inc: Entry<EntryIncremental, EntryCommitted> = Entry {
+            valid: EntryIncremental { uuid, ecstate },
+            state: EntryCommitted { id: 1 },
+            attrs: self.attrs,
+        };
+        inc.validate_repl(schema)
+    }
+}
+
+// Verification hook (C03). Add-only and behaviour neutral; only compiled with `verif-hooks`.
+#[cfg(feature = "verif-hooks")]
+#[allow(clippy::items_after_test_module)]
+impl Entry<EntrySealed, EntryNew> {
+    /// Assemble a sealed, not yet committed entry from explicit parts so that the backend
+    /// write path (`create`, `modify`, indexing) can be driven without a query server.
+    pub fn verif_c03_build_new(uuid: Uuid, ecstate: EntryChangeState, attrs: Eattrs) -> Self {
+        Entry {
+            valid: EntrySealed { uuid, ecstate },
+            state: EntryNew,
+            attrs,
+        }
+    }
+}
